@@ -62,15 +62,77 @@ def configs_for(prop, tier):
         ids = p.get('thorough_cfgs') or (THOROUGH_SAN if p.get('san') else THOROUGH)
     return [_BY[i] for i in ids]
 
+_COMMON = ('Verdicts are TLC verdicts: every recorded call of the real library (driver rebuilt from /repo, several compiler/optimisation/'
+           'standard configurations) is one step of the trace specification spec/FxTrace.tla and is judged by the property\'s predicate; a '
+           'rejection is re-run from a replay file before it is reported. ')
+_NOTE = ('Trusted: TLC 1.8 with BigInteger overrides for wide integers (self-tested against their TLA+ definitions), the driver recording what the '
+         'library returned, g++ 12 / clang++ 14 as the compilers users build with, the rational enclosures of spec/FxReal.tla (pi checked against '
+         'Machin inside the spec). Exhaustive only where stated; otherwise boundary-directed (operands solved from the contract\'s own case '
+         'boundaries), dense sweeps and seeded random inputs. Reduced-width model checking transfers to 64 bits only as the same specification text.')
+_T = 'TLA+ specification; TLC model checking of the transcribed algorithm + TLC trace validation of real-code executions'
+
+def _mt(text, technique=_T, note=_NOTE):
+    return {'text': _COMMON + text, 'note': note, 'technique': technique}
+
 MANIFEST_TEXT = {
-    'default': {
-        'text': 'The property is a predicate of the TLA+ specification (HighSpec, spec/FxContract*.tla). TLC (a) model-checks that the bit-precise '
-                'transcription of the code (LowSpec) refines it on every operand combination of a reduced-width instance of the machine, and (b) validates '
-                'traces of the real library - TLC-generated landmark/solved-boundary inputs, seeded random and dense sweeps, executed in several '
-                'compiler/optimisation/standard configurations rebuilt from /repo - event by event against the same predicate. Exhaustive for the model '
-                'at small width; boundary-directed and sampled for the 64-bit code.',
-        'note': 'Trusted: TLC 1.8 + BigInteger overrides for wide integers (self-tested against their TLA+ definitions), the driver recording what the '
-                'library returned, g++ 12 / clang++ 14 as the compilers users build with. Reduced-width results transfer to 64 bits only as the same spec text.',
-        'technique': 'TLA+ spec; TLC model checking (reduced width) + TLC trace validation of real-code executions',
-    },
+    'default': _mt('Model part: LowSpec refines HighSpec on every operand combination of the reduced-width machine.'),
+    'C01': _mt('Model: TLC, all operand pairs at 8 (thorough: 10) bits; Apalache proves the add/sub clauses for all 2^128 pairs at 64 bits. Code: landmark x '
+               'landmark and solved-boundary pairs (exact result on max, -max, -2^63 +- 1) plus seeded random pairs through three kinds of call site '
+               '(out of line, inlined into a caller that knows the operand signs, inlined into a vectorisable loop), + - += -=, in g++/clang++ -O0..-O3 '
+               'and UBSan-trap builds: this is what caught the optimiser deleting the overflow test.',
+               _T + ' + Apalache (symbolic, 64-bit)'),
+    'C02': _mt('Model: TLC, all pairs and all scalar types at reduced width. Code: landmark pairs, second operands solved so that the raw product sits on '
+               '+-2^63 and on max*2^16 +- 1, operand pairs whose bit lengths add up to 62..65, all ten integral scalar types (incl. long long / unsigned '
+               'long long) at their limits, both operand orders, compound forms, three call sites.'),
+    'C03': _mt('Model: TLC, all pairs at reduced width (finds the INT_MIN/-1 trap pattern and the lost-bits region on the original code). Code: dividends '
+               'around 2^31, 2^46, 2^47 against small/large divisors, all integral divisor types at their limits; SIGFPE is caught by the driver and '
+               'recorded as an event (trap field), so a trap is a rejected event, not a lost trace.'),
+    'C04': _mt('Model: TLC at reduced width, every value of every reduced type; Apalache proves both directions at 64 bits. Code: every value of the 8-bit '
+               'types and (thorough) of the 16-bit types through all four conversion routes, type limits and +-(2^31-1)+-1 for the wider ones, '
+               'fixed->integer around every multiple-of-2^16 boundary of every target range, implicit promotion in mixed +/-.',
+               _T + ' + Apalache (symbolic, 64-bit)'),
+    'C05': _mt('Code only (no reduced-width float): every binary32 exponent and ~120 binary64 exponents x structured mantissas, exact rounding ties '
+               '(k+1/2)/65536 and their neighbours, the +-(2^31-1) limit, NaN/inf/subnormals, seeded random patterns biased to ties; fixed->float/double '
+               'sweeps around 2^24, 2^25, 2^53 and the round trip. The contract is evaluated over an exact dyadic IEEE-754 model written in TLA+ '
+               '(spec/FxFloat.tla); LowSpec agrees with the code on every event.'),
+    'C06': _mt('Model: TLC all pairs at reduced width; Apalache proves the negation/abs/isnan clauses at 64 bits. Code: all six operators on landmark x '
+               'landmark pairs including both NaNs and INT64_MIN, random pairs, also built with -funsigned-char.', _T + ' + Apalache (symbolic, 64-bit)'),
+    'C07': _mt('Every entry point (all operators and conversions for all operand types, elementary functions, degree helpers, table functions) on finite '
+               'and NaN operands, solved boundaries and random inputs, executed in UBSan (trap mode) + ASan builds of both compilers and in plain builds: '
+               'an undefined operation, a signal, an out-of-bounds read or a call that does not return within ~5 s is a field of the recorded event and '
+               'is rejected by the predicate. Observational on the code; the model side (LowSpec over checked C++ primitives yielding "poison") is '
+               'checked for the unary domains by MC_Unary.NoUB.'),
+    'C08': _mt('The product of the machine over configurations: the traces of all configurations are merged into one event per call (result groups keyed '
+               'by the square-root algorithm the build really selects, probed by the driver) and judged by RuntimeAgree / SqrtAlgosClose; constant '
+               'evaluation is a translation unit of one static_assert per sampled call (edge operands first) per compiler x standard, diagnostics mapped '
+               'back to events (ok / rejected / differs). Open known finding: the compiled table functions are not constexpr.'),
+    'C09': _mt('Model: TLC evaluates LowSpec (bit-precise transcription of sin/cos) against the bound on the raw domain [-2pi, 2pi] (all 823,549 arguments '
+               'in the thorough tier) with interval enclosures of sin/pi computed inside TLA+. Code: the same sweep on the real library (thorough: every '
+               'argument; quick: every 13th + dense around multiples of phi/4), periodicity pairs (x, x + k*2phi) at integer-width edges and random up to 2^62.'),
+    'C10': _mt('Model: LowSpec of tan vs the slope-relative bound on all of [-pi, pi] (thorough). Code: the same sweep, poles x = phi/2 + k phi +- 1 '
+               'up to 2^62, odd/period pair events.'),
+    'C11': _mt('atan by inversion (x against tan(out +- 5e-5) with enclosures), atan2 by a rotation test. Model: LowSpec of atan over [-2^18, 2^20]. Code: '
+               'dense sweep to 2^20, all segment boundaries, 12..256 points per octave to 2^47, odd/monotone pair events, atan2 on landmark pairs '
+               '(axes, steep/flat directions) and random pairs at three magnitude scales.'),
+    'C12': _mt('Model: LowSpec of asin/acos under both square-root algorithms over all 131,401 arguments around [-1,1] (thorough). Code: the same sweep '
+               '(quick: every 3rd, offset by the seed), odd/monotone pairs over the whole domain, acos related to the library\'s own asin.'),
+    'C13': _mt('Model: abacus algorithm exhaustively at reduced width (MC_Core) and both algorithms on [0, 2^20] (MC_Unary). Code: both algorithms called '
+               'directly and through sqrt(), dense sweeps at 0..2^20, around 2^32, 2^46, 2^47, squares and their neighbours, octave grids, monotonicity '
+               'between consecutive events.'),
+    'C14': _mt('Exact integer tests (squares) of both bounds. Code: landmark cross product around the three normalisation branches (found the overflow at '
+               'max operand 2^30-1), all pairs of [0,255]^2 (thorough), random pairs at three scales, symmetry events, both square-root algorithms.'),
+    'C15': _mt('Model: TLC all values at reduced width; Apalache proves floor/ceil at 64 bits. Code: every raw in +-2^18 (thorough), integers +-delta, range ends.',
+               _T + ' + Apalache (symbolic, 64-bit)'),
+    'C16': _mt('Relational: each mixed event carries the library\'s own fixed_t(t) and promoted result; double results are compared with the IEEE-754 model '
+               'in written operand order. Ten integral types + float + double, both orders, four operators, compound forms; landmark and random.'),
+    'C17': _mt('The laws are programs of the register machine (spec/FxLaws.tla): TLC generates landmark instances and, under tlc -simulate, random '
+               'programs whose results feed the law (spec/FxProgGen.tla); the real library executes them; the trace specification checks the data flow '
+               '(logged operands = registers), the shape of the recorded law tail and the law. Apalache proves the +/- laws at 64 bits.',
+               _T + ' on programs generated by TLC (-simulate) + Apalache'),
+    'C18': _mt('Model: TLC all (x, r) and all pairs for & at reduced width. Code: landmarks x shift counts {INT_MIN, ..., -1, 0..63}, random.'),
+    'C19': _mt('All 1,234 table entries against enclosures; sin/cos_angle_aprox on a complete sweep around 0, strided sweeps of the whole int32 range and '
+               '(thorough) ALL 2^32 angles aggregated by the driver into one event per distinct (d mod 360, result); sqrt_aprox and atan_index_aprox on '
+               'dense, octave and random inputs. LowSpec of the table functions (tables read from the built library) agrees with the code on every event.'),
+    'C20': _mt('angle_to_radians for every value of the 8/16-bit types and ranges of the wider ones; sin/cos/tan_angle for every d in [-360, 360] through '
+               'every carrier type, plus events that run the same d through all types and demand identical results.'),
 }
